@@ -243,7 +243,15 @@ class CxxParser:
 
             if tok.type in self._end_balanced_tokens:
                 expected = match_stack.pop()
-                if tok.type != expected:
+                if (
+                    tok.type == "DBL_RBRACKET"
+                    and expected == "]"
+                    and match_stack
+                    and match_stack[-1] == "]"
+                ):
+                    # the lexer fuses two closing brackets: a[b[0]]
+                    match_stack.pop()
+                elif tok.type != expected:
                     # hack: we only claim to parse correct code, so if this
                     # is less than or greater than, assume that the code is
                     # doing math and so this unexpected item is correct.
